@@ -6,8 +6,17 @@ Property theorems only (model: `Model/Expect.lean`, helpers: `Proofs/Expect.lean
 code **with** `fixes/C12-done-guards.patch`, `fixes/C12-predicate-fields.patch` and
 `fixes/C12-execute-cancel-during-send.patch` applied.
 `run ops` is the state after any list of operations (requests created, callers starting to await,
-messages, timeouts, task/future cancellations, failing sends, scheduled callbacks run one at a
-time) — i.e. any schedule; a waiter's identity is its index in `ws`.
+messages *entering* `on_message_received` (`arrive`), their handlers *having returned* (`finish` = the
+completion loop), connections changing state, timeouts, task/future cancellations, failing sends,
+scheduled callbacks run one at a time) — i.e. any schedule; a waiter's identity is its index in `ws`, a
+message's number is the index of its call in `hs`.
+
+What the handlers of a message (the Network's own handler, the listeners of `MessageReceivedEvent`) do
+between `arrive c μ` and `finish h` is not restricted in any way: they are the ops in between — they may
+suspend for any number of steps, close the connection the message came on (`connState c true`) or any
+other, create new requests, cancel or time out pending ones, await a nested request whose reply arrives
+(`arrive` … `finish`) on another connection or on the same one while the outer call is still running.
+Every theorem below quantifies over all such op lists.
 -/
 namespace AioslskVerif.C12
 open AioslskVerif.Expect
@@ -33,26 +42,59 @@ theorem C12_pending_is_listed (ops : List Op) (k : Nat) (w : Waiter)
     (hk : (run ops).ws[k]? = some w) (hp : w.fut = .pending) : w.listed = true :=
   ((inv_run ops).w k w hk).1 hp
 
-/-- One incoming message, in any reachable state: **every** pending request it answers is completed
-with it, and no other request is touched. -/
-theorem C12_all_pending_matching_resolved (ops : List Op) (μ : Msg) (k : Nat) (w : Waiter)
+/-- The handlers of a message have returned, in any reachable state — whatever they did meanwhile,
+whatever state any connection is in, whichever other calls are still running: **every** pending request
+the message answers is completed with it, and no other request is touched. -/
+theorem C12_all_pending_matching_resolved (ops : List Op) (h : Nat) (hd : Handling)
+    (hh : (run ops).hs[h]? = some hd) (hnd : hd.done = false) (k : Nat) (w : Waiter)
     (hk : (run ops).ws[k]? = some w) :
-    ∃ w', (run (ops ++ [.message μ])).ws[k]? = some w' ∧
-      (w.fut = .pending → w.m.matches μ = true → w'.fut = .result (run ops).nmsg) ∧
-      (¬ (w.fut = .pending ∧ w.m.matches μ = true) → w'.fut = w.fut) := by
+    ∃ w', (run (ops ++ [.finish h])).ws[k]? = some w' ∧
+      (w.fut = .pending → w.m.matches hd.μ = true → w'.fut = .result h) ∧
+      (¬ (w.fut = .pending ∧ w.m.matches hd.μ = true) → w'.fut = w.fut) := by
   have hi := inv_run ops
-  obtain ⟨w', hk', h⟩ := step_get (.message μ) hk
-  refine ⟨w', by simpa [run, List.foldl_append] using hk', ?_⟩
-  rcases h with ⟨μ', he, rfl⟩ | ⟨hne, _⟩
-  · cases he
-    have hiff := resolveW_hit_iff hi hk μ
-    constructor
-    · intro hp hm
-      simp [resolveW, hiff.mpr ⟨hp, hm⟩]
-    · intro hn
-      have : ¬ hit μ w = true := fun h => hn (hiff.mp h)
-      simp [resolveW, this]
-  · exact absurd rfl (hne μ)
+  have hrun : (run (ops ++ [.finish h])).ws = (run ops).ws.map (resolveW hd.μ h) := by
+    simp [run, List.foldl_append, step, hh, hnd, deliver_eq]
+  refine ⟨resolveW hd.μ h w, by rw [hrun]; simp [hk], ?_⟩
+  have hiff := resolveW_hit_iff hi hk hd.μ
+  constructor
+  · intro hp hm
+    simp [resolveW, hiff.mpr ⟨hp, hm⟩]
+  · intro hn
+    have : ¬ hit hd.μ w = true := fun h => hn (hiff.mp h)
+    simp [resolveW, this]
+
+/-- The completion loop consults the call's own message and the list of requests — nothing else: the
+same requests are completed whatever the state of the connections (the one the message came on
+included: closed *while* the message was handled) and whatever other calls of `on_message_received` are
+running or finished (no serialisation across connections). -/
+theorem C12_completion_ignores_connections_and_other_calls (s : State) (h : Nat) (hd : Handling)
+    (hh : s.hs[h]? = some hd) (cl : List Nat) (hs' : List Handling) (hh' : hs'[h]? = some hd) :
+    (step { s with closing := cl, hs := hs' } (.finish h)).ws = (step s (.finish h)).ws ∧
+    (step { s with closing := cl, hs := hs' } (.finish h)).cbq = (step s (.finish h)).cbq := by
+  simp only [step, hh, hh']
+  by_cases hdn : hd.done = true <;> simp [hdn]
+
+/-- Handlers first: entering `on_message_received` completes nothing, it only opens the call (numbered
+by arrival); the call is completed by its own `finish` and by nothing else, once. -/
+theorem C12_handlers_first (s : State) (c : Nat) (μ : Msg) :
+    (step s (.arrive c μ)).ws = s.ws ∧ (step s (.arrive c μ)).cbq = s.cbq ∧
+    (step s (.arrive c μ)).hs[s.nmsg]? = some { μ := μ, c := c, done := false } := by
+  simp [step, State.nmsg]
+
+theorem C12_finish_once (s : State) (h : Nat) : step (step s (.finish h)) (.finish h) = step s (.finish h) := by
+  cases hh : s.hs[h]? with
+  | none => simp [step, hh]
+  | some hd =>
+    have hlt : h < s.hs.length := (List.getElem?_eq_some_iff.mp hh).1
+    by_cases hdn : hd.done = true
+    · simp [step, hh, hdn]
+    · simp [step, hh, hdn, hlt]
+
+/-- Every call record is the arrival of exactly that message on exactly that connection; its number is
+the number of messages that had arrived before. -/
+theorem C12_call_is_arrival (ops : List Op) (h : Nat) (hd : Handling) (hh : (run ops).hs[h]? = some hd) :
+    ∃ pre post, ops = pre ++ Op.arrive hd.c hd.μ :: post ∧ (run pre).nmsg = h :=
+  arrival_foldl ops {} h hd (by simp) hh
 
 /-- A completed / cancelled request never changes again, whatever happens later; the caller's
 answer, once given, is final; the matcher is fixed. -/
@@ -62,21 +104,24 @@ theorem C12_at_most_once (ops ops' : List Op) (k : Nat) (w : Waiter) (hk : (run 
   have := stable_foldl ops' (run ops) k w (inv_run ops) hk
   simpa [run, List.foldl_append] using this
 
-/-- A request completed with message number `i` was completed *by* that message: the message was
-received while the request was pending and listed, and it matches. -/
+/-- A request completed with message number `i` was completed *by* that message: by the completion
+loop of call `i` (which ran once its handlers had returned), while the request was pending and listed, and the
+message matches. -/
 theorem C12_resolved_by_first_match (ops : List Op) (k i : Nat) (w : Waiter)
     (hk : (run ops).ws[k]? = some w) (hr : w.fut = .result i) :
-    ∃ pre μ post w0, ops = pre ++ Op.message μ :: post ∧ (run pre).nmsg = i ∧
-      (run pre).ws[k]? = some w0 ∧ w0.fut = .pending ∧ w0.listed = true ∧ w0.m.matches μ = true :=
+    ∃ pre post hd w0, ops = pre ++ Op.finish i :: post ∧
+      (run pre).hs[i]? = some hd ∧ hd.done = false ∧
+      (run pre).ws[k]? = some w0 ∧ w0.fut = .pending ∧ w0.listed = true ∧ w0.m.matches hd.μ = true :=
   first_match_foldl ops {} k i w inv_init (by simp) hk hr
 
-/-- … and it is the *first* such message: once a matching message arrives for a pending request,
-the request holds that message for ever (no later message can complete it). -/
-theorem C12_first_match_wins (pre : List Op) (μ : Msg) (post : List Op) (k : Nat) (w0 : Waiter)
-    (hk : (run pre).ws[k]? = some w0) (hp : w0.fut = .pending) (hm : w0.m.matches μ = true) :
-    ∃ w, (run (pre ++ Op.message μ :: post)).ws[k]? = some w ∧ w.fut = .result (run pre).nmsg := by
-  obtain ⟨w1, hk1, h1, _⟩ := C12_all_pending_matching_resolved pre μ k w0 hk
-  obtain ⟨w2, hk2, _, h2, _⟩ := C12_at_most_once (pre ++ [.message μ]) post k w1 hk1
+/-- … and it is the *first* such message: once the handlers of a matching message have returned while the
+request is pending, the request holds that message for ever (no later message can complete it). -/
+theorem C12_first_match_wins (pre : List Op) (h : Nat) (hd : Handling) (post : List Op) (k : Nat) (w0 : Waiter)
+    (hh : (run pre).hs[h]? = some hd) (hnd : hd.done = false)
+    (hk : (run pre).ws[k]? = some w0) (hp : w0.fut = .pending) (hm : w0.m.matches hd.μ = true) :
+    ∃ w, (run (pre ++ Op.finish h :: post)).ws[k]? = some w ∧ w.fut = .result h := by
+  obtain ⟨w1, hk1, h1, _⟩ := C12_all_pending_matching_resolved pre h hd hh hnd k w0 hk
+  obtain ⟨w2, hk2, _, h2, _⟩ := C12_at_most_once (pre ++ [.finish h]) post k w1 hk1
   refine ⟨w2, by simpa using hk2, ?_⟩
   rw [h2 (by rw [h1 hp hm]; simp), h1 hp hm]
 
@@ -173,17 +218,33 @@ def exBad : Msg := { conn := .server, cls := 1, attrs := [(4, .v 1), (5, .v 8)] 
 example : exMatcher.matches exBad = false := by decide
 example : exMatcher.matches exGood = true := by decide
 -- two waiters, one reply twice back-to-back: both complete with the first, nothing raises
-example : ((run [.create .wait exMatcher, .awaitF 0, .create .raw exMatcher, .awaitF 1, .message exGood,
-    .message exGood]).ws.map (·.fut)) = [.result 0, .result 0] := by decide
+example : ((run ([.create .wait exMatcher, .awaitF 0, .create .raw exMatcher, .awaitF 1] ++ Op.message 0 exGood 0 ++
+    Op.message 0 exGood 1)).ws.map (·.fut)) = [.result 0, .result 0] := by decide
 -- a timeout, then the reply while the timed-out request is still listed: caller gets TimeoutError
-example : ((run [.create .wait exMatcher, .awaitF 0, .timeout 0, .message exGood, .cb, .cb]).ws.map
+example : ((run ([.create .wait exMatcher, .awaitF 0, .timeout 0] ++ Op.message 0 exGood 0 ++ [.cb, .cb])).ws.map
     fun w => (w.fut, w.listed, w.expired, w.cancelReq, w.out)) = [(.cancelled, false, true, false, .timeout)] := by decide
 -- reply and timeout in the same iteration
-example : ((run [.create .wait exMatcher, .awaitF 0, .message exGood, .timeout 0, .cb, .cb]).ws.map
+example : ((run ([.create .wait exMatcher, .awaitF 0] ++ Op.message 0 exGood 0 ++ [.timeout 0, .cb, .cb])).ws.map
     fun w => (w.fut, w.listed, w.out)) = [(.result 0, false, .timeout)] := by decide
 
 -- execute(): registered, suspended in send, task cancelled there; the reply arrives afterwards: nobody is listed
-example : ((run [.create .exec exMatcher, .sendFails 0 true, .cb, .message exGood]).ws.map
+example : ((run ([.create .exec exMatcher, .sendFails 0 true, .cb] ++ Op.message 0 exGood 0)).ws.map
     fun w => (w.fut, w.listed, w.out)) = [(.cancelled, false, .cancelled)] := by decide
+
+def exPeer : Matcher := { cls := .peer, msg := 0, peer := some 1, fields := [(0, .const (.v 3))] }
+def exPeerReply : Msg := { conn := .peer (some 1), cls := 0, attrs := [(0, .v 3)] }
+
+-- a handler of the reply closes the connection it came on before it returns: the request is completed all the same
+example : ((run [.create .wait exPeer, .awaitF 0, .arrive 2 exPeerReply, .connState 2 true, .finish 0, .cb, .cb]).ws.map
+    fun w => (w.fut, w.listed, w.out)) = [(.result 0, false, .result 0)] := by decide
+-- a listener of server message #0 awaits a nested request inline; its reply (#1) arrives on a peer connection and
+-- completes it while call #0 is still running; afterwards call #0 finishes and completes the outer request
+example : ((run [.create .raw exMatcher, .awaitF 0, .arrive 0 exGood, .create .wait exPeer, .awaitF 1,
+    .arrive 2 exPeerReply, .finish 1, .cb, .cb, .finish 0, .cb, .cb]).ws.map
+    fun w => (w.fut, w.listed, w.out)) = [(.result 0, false, .result 0), (.result 1, false, .result 1)] := by decide
+-- a request registered by a handler of the message it matches is completed by that message; one cancelled by a
+-- handler is not
+example : ((run [.create .raw exMatcher, .awaitF 0, .arrive 0 exGood, .cancelFut 0, .create .raw exMatcher,
+    .finish 0]).ws.map (·.fut)) = [.cancelled, .result 0] := by decide
 
 end AioslskVerif.C12
